@@ -57,6 +57,12 @@ pub struct LazyPageTextVec {
 
     // Caches the last error that was emitted. Mainly for use with iterator.
     pub last_error: Option<SError>,
+
+    // Verification hook: when set, page text comes from this provider instead
+    // of the PDF document.
+    #[cfg(feature = "verif_hooks")]
+    verif_page_text_provider:
+        Option<Box<dyn FnMut(&[u32]) -> Result<Vec<String>, SError>>>,
 }
 
 impl LazyPageTextVec {
@@ -66,7 +72,27 @@ impl LazyPageTextVec {
             load_async_blocking,
             page_texts: Vec::new(),
             last_error: None,
+            #[cfg(feature = "verif_hooks")]
+            verif_page_text_provider: None,
         }
+    }
+
+    /// Verification hook: a LazyPageTextVec whose page text is produced by
+    /// `provider` (called with the page numbers of each group that is loaded)
+    /// rather than extracted from a PDF document.
+    #[cfg(feature = "verif_hooks")]
+    pub fn verif_new_with_provider(
+        provider: Box<dyn FnMut(&[u32]) -> Result<Vec<String>, SError>>,
+    ) -> Self {
+        let mut v = Self::new(Arc::new(Document::new()), false);
+        v.verif_page_text_provider = Some(provider);
+        v
+    }
+
+    /// Verification hook: number of slots currently held in the page cache.
+    #[cfg(feature = "verif_hooks")]
+    pub fn verif_cache_len(&self) -> usize {
+        self.page_texts.len()
     }
 
     pub fn load_pages(&mut self, page_numbers: &[u32]) -> Result<(), &SError> {
@@ -74,6 +100,16 @@ impl LazyPageTextVec {
             get_pages_text_async_blocking(self.doc.clone(), &page_numbers)
         } else {
             get_pages_text(self.doc.as_ref(), &page_numbers)
+        };
+        #[cfg(feature = "verif_hooks")]
+        let page_texts_res = match self.verif_page_text_provider.as_mut() {
+            Some(provider) => provider(&page_numbers).map_err(|e| {
+                pdf_extract::OutputError::IoError(std::io::Error::new(
+                    std::io::ErrorKind::Other,
+                    e,
+                ))
+            }),
+            None => page_texts_res,
         };
         match page_texts_res {
             Ok(page_texts) => {
